@@ -669,7 +669,7 @@ pub fn c18(tier: Tier, _seed: u64) -> Prop {
     units.push(framing_unit(if thorough { 5 } else { 4 }));
     units.push(backlog_unit());
     units.push(big_batch_unit());
-    units.push(super::realbin::c18_unit());
+    units.push(super::realbin::c18_unit(thorough));
     Prop {
         id: "C18",
         level: "model_checking",
